@@ -2775,10 +2775,10 @@ class Env(cabc.MutableMapping):
         """
         if key in local:
             return local[key]
-        try:
-            return self[key]
-        except KeyError:
-            return NotImplemented
+        # Not overridden in this thread: ``swap`` only ever writes the
+        # thread-local layer, so dropping the override on exit is what
+        # restores the outer view (global value, default or overlay).
+        return NotImplemented
 
     @contextlib.contextmanager
     def swap(self, other=None, overlay=None, **kwargs):
@@ -2986,8 +2986,17 @@ class Env(cabc.MutableMapping):
             else:
                 del self._d[key]
             self._detyped = None
-            if self.get("UPDATE_OS_ENVIRON") and key in os_environ:
-                del os_environ[key]
+            if self.get("UPDATE_OS_ENVIRON"):
+                deval = None
+                if thread_local and key in self._d:
+                    # the global value shows through again
+                    val, detyper = self._d[key], self.get_detyper(key)
+                    if val is not DELETE_VAR and detyper is not None:
+                        deval = detyper(val)
+                if deval is not None:
+                    os_environ[key] = deval
+                elif key in os_environ:
+                    del os_environ[key]
         elif key not in self._vars:
             e = "Unknown environment variable: ${}"
             raise KeyError(e.format(key))
